@@ -25,7 +25,7 @@ def run(ctx):
         jaxp = i >= nspec
         # every fourth specification: only bin-wise constraints — the Poisson-constrained (shapesys) block then precedes the
         # Gaussian-constrained (staterror) one in the auxiliary data (the [normal, poisson] viewer then has to *reorder* consecutive runs)
-        spec, info = gen_spec.gen_spec(rng, want={'shapesys', 'staterror'}, avoid=set(gen_spec.SYS_POOL) | {'lumi'}) if i % 4 == 1 else gen_spec.gen_spec(rng)
+        spec, info = gen_spec.gen_spec(rng, want={'shapesys', 'staterror'}, avoid=set(gen_spec.SYS_POOL) | {'lumi'}) if i % 4 == 1 else gen_spec.gen_spec(rng, cross_channel_stat=True)
         histo = rng.choice(['0', '2', '4p']); norm = rng.choice(['1', '4'])
         N = rng.randint(1, 8) if not jaxp else rng.randint(2, 3)
         pyhf.set_backend('numpy', precision='64b')
